@@ -621,7 +621,7 @@ def run_rx_for(sub, pid, tier, rep, deadline_s):
 
 def run_c17(pid, tier, rep, deadline_s):
     run_rx(pid, tier, rep, deadline_s); cov = dict(rep.coverage)
-    totals, samples, bounds, extra = run_progs(pid, rep, [dict(name='c17u', src='c17_undeclared.cpp', flags=['-O0'], label='grammars mentioning undeclared symbols: 18 refusal cases (root / left side / right side x nterm / char / string / regex term x unrelated, extending and prefix names) + 3 acceptance controls')], deadline_s)
+    totals, samples, bounds, extra = run_progs(pid, rep, [dict(name='c17u', src='c17_undeclared.cpp', flags=['-O0'], label='grammars mentioning undeclared symbols: 32 refusal cases (root / left side / right side x nterm / char / string / regex term x unrelated, extending and prefix names; each of the 9 positions of a 9-symbol rule; the 21st rule; 69-character names differing in the last character) + 6 acceptance controls')], deadline_s)
     rep.coverage = merge_cov(cov, {'states': totals['cases'], 'transitions': totals['checks'], 'traces_validated_against_impl': totals['cases'], 'samples': samples, 'evaluations': totals['cases'], 'distinct_nontrivial': extra.get('refused', 0), 'bounds': bounds,
                                    'exhaustive': all(b['completed'] for b in bounds), 'rule': 'Grammar part: run-time construction of parsers whose rules mention an undeclared symbol in every position kind must throw (compiled black-box program, g++ and clang++).'})
 
